@@ -144,7 +144,11 @@ func runComparators(c *Ctx, fns []*ssa.Function, wantKey map[string]string) {
 				} else {
 					probs = append(probs, "multi-block comparator not recognised")
 				}
-				if want, ok := wantKey[fname]; ok && field != "" && !strings.Contains(want, field) {
+				elem := ""
+				if sl, isSl := target.Type().Underlying().(*types.Slice); isSl {
+					elem = typeName(sl.Elem())
+				}
+				if want, ok := wantKey[elem]; ok && field != "" && !strings.Contains(want, field) {
 					probs = append(probs, "sorted by "+field+", expected "+want)
 				}
 				c.Check(len(probs) == 0, "CMP", fname, construct, p.ipos(call), "comparator indexes the sorted slice itself and compares one key ("+field+") with <", strings.Join(dedup(probs), "; "))
@@ -242,15 +246,18 @@ func runStaticOrder(c *Ctx) {
 		}
 		c.Check(ok, "ORDER", fname, "every trip's stop times sorted after all rows are read", pos, "unconditional sort.Slice of trip.StopTimes for every trip, after the row loop", why)
 	}
-	// S2: shapes: each group sorted before its points are built; points built by a range over the sorted rows
+	// S2: shapes: each group sorted before its points are built (wherever in parseShapes or its helpers that happens)
 	if fn := c.anchor("gtfs:parseShapes"); fn != nil {
 		fname := shortName(fn)
+		region := c.regionOf(fn)
 		var rowsSort *ssa.Call
-		for _, b := range fn.Blocks {
-			for _, in := range b.Instrs {
-				if call, ok := in.(*ssa.Call); ok && calleeName(call) == "sort.Slice" {
-					if strings.Contains(sortTarget(call).Type().String(), "ShapeRow") {
-						rowsSort = call
+		for _, g := range region {
+			for _, b := range g.Blocks {
+				for _, in := range b.Instrs {
+					if call, ok := in.(*ssa.Call); ok && (calleeName(call) == "sort.Slice" || calleeName(call) == "sort.SliceStable") {
+						if sl, isSl := sortTarget(call).Type().Underlying().(*types.Slice); isSl && typeName(sl.Elem()) == "gtfs.ShapeRow" {
+							rowsSort = call
+						}
 					}
 				}
 			}
@@ -258,27 +265,31 @@ func runStaticOrder(c *Ctx) {
 		ok := rowsSort != nil
 		why := "the rows of a shape are not sorted"
 		if ok {
-			// every append to a []ShapePoint happens in a loop dominated by the sort, ranging over the sorted slice
-			for _, b := range fn.Blocks {
-				for _, in := range b.Instrs {
-					call, isCall := in.(*ssa.Call)
-					if !isCall || !isBuiltin(call, "append") || !strings.Contains(call.Type().String(), "ShapePoint") {
-						continue
-					}
-					if !rowsSort.Block().Dominates(b) {
-						ok, why = false, "points are built before the rows are sorted"
+			for _, g := range region {
+				for _, b := range g.Blocks {
+					for _, in := range b.Instrs {
+						call, isCall := in.(*ssa.Call)
+						if !isCall || !isBuiltin(call, "append") {
+							continue
+						}
+						if sl, isSl := call.Type().Underlying().(*types.Slice); !isSl || typeName(sl.Elem()) != "gtfs.ShapePoint" {
+							continue
+						}
+						if !c.mustPrecede(rowsSort, call) {
+							ok, why = false, "points are built before the rows are sorted"
+						}
 					}
 				}
 			}
 		}
-		c.Check(ok, "ORDER", fname, "shape points built from the rows sorted by sequence", p.pos(fn.Pos()), "sort.Slice(rows) dominates the loop that builds the points", why)
+		c.Check(ok, "ORDER", fname, "shape points built from the rows sorted by sequence", p.pos(fn.Pos()), "sort.Slice(rows) precedes the loop that builds the points", why)
 	}
 	// comparators
 	var cmpFns []*ssa.Function
 	for _, f := range fns {
 		cmpFns = append(cmpFns, f)
 	}
-	runComparators(c, cmpFns, map[string]string{"gtfs.parseScheduledStopTimes": "StopSequence", "gtfs.parseShapes": "ShapePtSequence ID"})
+	runComparators(c, cmpFns, map[string]string{"gtfs.ScheduledStopTime": "StopSequence", "gtfs.ShapeRow": "ShapePtSequence", "gtfs.Shape": "ID"})
 	// S3: file-order collections: only tail appends, never sorted
 	fileOrder := map[string]bool{"gtfs.Agency": true, "gtfs.Route": true, "gtfs.Stop": true, "gtfs.Transfer": true, "gtfs.ScheduledTrip": true, "gtfs.Frequency": true, "time.Time": true}
 	for _, fn := range fns {
@@ -716,22 +727,38 @@ func runWarningRules(c *Ctx) {
 		}
 		c.Check(len(probs) == 0, "G9", "csv", "the reused record never escapes uncopied", "-", "the slice returned by Read under ReuseRecord is kept only in row.cells; what leaves the package is a copy", strings.Join(dedup(probs), "; "))
 	}
-	// A9: NewStaticWarning's fields
+	// A9: NewStaticWarning's fields: each is what the File's exported accessor of the same name yields (called, or -- the
+	// accessors being plain getters -- the field they return), for the file handed in; Kind is the kind handed in
+	accField := map[string]string{}
+	for _, acc := range []string{"Name", "RowNumber", "HeaderContent"} {
+		if f := c.anchor("csv:(*File)." + acc); f != nil {
+			if fi, ok := getterLikeField(f); ok {
+				accField[acc] = fi
+			}
+		}
+	}
 	if f := c.anchor("warnings:NewStaticWarning"); f != nil {
 		b := newBinder(c)
-		want := map[string]string{"File": "Name(", "RowNumber": "RowNumber(", "RowContent": "RowContent(", "HeaderContent": "HeaderContent(", "Kind": "param:kind"}
+		want := map[string]string{"File": "Name", "RowNumber": "RowNumber", "RowContent": "RowContent", "HeaderContent": "HeaderContent"}
 		got := map[string]string{}
-		for _, fs := range collectFieldStores([]*ssa.Function{f}, "warnings.StaticWarning") {
+		for _, fs := range collectFieldStores(c.regionOf(f), "warnings.StaticWarning") {
 			got[fs.field] = b.bind(fs.store.Val)
 		}
 		for _, field := range []string{"File", "HeaderContent", "Kind", "RowContent", "RowNumber"} {
-			ok := strings.HasPrefix(got[field], want[field]) && (field == "Kind" || strings.Contains(got[field], "param:csvFile"))
-			c.Check(ok, "A9", shortName(f), "warning."+field, p.pos(f.Pos()), field+" <- "+clip(got[field], 60), fmt.Sprintf("StaticWarning.%s is filled from %q, expected %s of the file being parsed", field, clip(got[field], 80), want[field]))
+			ok := false
+			if field == "Kind" {
+				ok = got[field] == "param:<warnings.StaticWarningKind>"
+			} else {
+				acc := want[field]
+				ok = got[field] == acc+"(param:<csv.File>)" || (accField[acc] != "" && got[field] == "param:<csv.File>."+accField[acc])
+			}
+			c.Check(ok, "A9", shortName(f), "warning."+field, p.pos(f.Pos()), field+" <- "+clip(got[field], 60), fmt.Sprintf("StaticWarning.%s is filled from %q, expected the file's %s", field, clip(got[field], 80), want[field]))
 		}
 	}
-	// row numbering: rowNumber += 1 exactly once, on the success path of NextRow, nowhere else; RowNumber() returns it
-	var writes []string
-	okInc := false
+	// row numbering: one int field of File is incremented by exactly one, on the success path of NextRow, and written
+	// nowhere else; RowNumber() returns it
+	writes := map[string][]string{}
+	incField := ""
 	nextRow := c.anchor("csv:(*File).NextRow")
 	for _, fn := range csvFns {
 		for _, b := range fn.Blocks {
@@ -741,18 +768,27 @@ func runWarningRules(c *Ctx) {
 					continue
 				}
 				fa, ok := st.Addr.(*ssa.FieldAddr)
-				if !ok || typeName(fa.X.Type()) != "csv.File" || fieldName(fa.X.Type(), fa.Field) != "rowNumber" {
+				if !ok || typeName(fa.X.Type()) != "csv.File" {
 					continue
 				}
-				writes = append(writes, shortName(fn))
-				if fn == nextRow {
+				if bt, isB := deref(fa.Type()).Underlying().(*types.Basic); !isB || bt.Info()&types.IsInteger == 0 {
+					continue
+				}
+				fld := fieldName(fa.X.Type(), fa.Field)
+				if a, isAlloc := fa.X.(*ssa.Alloc); isAlloc && a.Comment == "complit" {
+					if k, isC := constInt(st.Val); isC && k == 0 {
+						continue // explicit zero in the constructor's literal
+					}
+				}
+				writes[fld] = append(writes[fld], shortName(fn))
+				if nextRow != nil && inRegion(c, nextRow, fn) {
 					if bo, ok := st.Val.(*ssa.BinOp); ok && bo.Op == token.ADD && canon(bo.X) == "*("+canon(fa)+")" {
 						if k, ok := constInt(bo.Y); ok && k == 1 {
-							// dominates the `return true` and is not reachable from an error return
-							for _, rb := range fn.Blocks {
+							// precedes the `return true` of NextRow
+							for _, rb := range nextRow.Blocks {
 								if ret, ok := rb.Instrs[len(rb.Instrs)-1].(*ssa.Return); ok {
-									if bv, _ := constBool(ret.Results[0]); bv && dominatesInstr(st, ret) {
-										okInc = true
+									if bv, _ := constBool(ret.Results[0]); bv && c.mustPrecede(st, ret) {
+										incField = fld
 									}
 								}
 							}
@@ -762,15 +798,45 @@ func runWarningRules(c *Ctx) {
 			}
 		}
 	}
-	c.Check(okInc && len(writes) == 1, "A9", "(*csv.File).NextRow", "row number counts accepted records from 1", "-", "rowNumber is incremented by exactly one, only on the path that hands out a row", fmt.Sprintf("rowNumber is written %d time(s) (%v) or not as rowNumber+1 on the success path: warnings no longer carry the 1-based record number", len(writes), writes))
-	for _, g := range []struct{ spec, field string }{{"csv:(*File).RowNumber", "rowNumber"}, {"csv:(*File).Name", "name"}, {"csv:(*File).HeaderContent", "headerContent"}} {
-		f := c.anchor(g.spec)
-		if f == nil {
-			continue
+	c.Check(incField != "" && len(writes[incField]) == 1, "A9", "(*csv.File).NextRow", "row number counts accepted records from 1", "-", "the row counter is incremented by exactly one, only on the path that hands out a row", fmt.Sprintf("the row counter is written %d time(s) (%v) or not as counter+1 on the success path: warnings no longer carry the 1-based record number", len(writes[incField]), writes))
+	c.Check(incField != "" && accField["RowNumber"] == incField, "A9", "(*csv.File).RowNumber", "accessor returns the row counter", "-", "returns the field NextRow increments", "RowNumber() does not return the counter that NextRow increments")
+	if f := c.anchor("csv:(*File).Name"); f != nil {
+		ok := false
+		if st := structOf(f.Params[0].Type()); st != nil {
+			for i := 0; i < st.NumFields(); i++ {
+				if st.Field(i).Name() == accField["Name"] && typeName(st.Field(i).Type()) == "constants.StaticFile" {
+					ok = true
+				}
+			}
 		}
-		fi, ok := getterLikeField(f)
-		c.Check(ok && fi == g.field, "A9", shortName(f), "accessor returns "+g.field, p.pos(f.Pos()), "returns f."+g.field, "accessor does not return File."+g.field)
+		c.Check(ok, "A9", shortName(f), "accessor returns the file's name", p.pos(f.Pos()), "returns the StaticFile the File was opened with", "Name() does not return the File's StaticFile field")
 	}
+	if f := c.anchor("csv:(*File).HeaderContent"); f != nil {
+		// the []string field that New fills (from the header record) and nothing else writes
+		ok := accField["HeaderContent"] != ""
+		nw := c.anchor("csv:New")
+		n := 0
+		for _, fn := range csvFns {
+			for _, fs := range collectFieldStores([]*ssa.Function{fn}, "csv.File") {
+				if fs.field == accField["HeaderContent"] {
+					n++
+					if nw == nil || !inRegion(c, nw, fn) {
+						ok = false
+					}
+				}
+			}
+		}
+		c.Check(ok && n > 0, "A9", shortName(f), "accessor returns the header record", p.pos(f.Pos()), "returns the field csv.New fills from the header record", "HeaderContent() does not return the header record kept by csv.New")
+	}
+}
+
+func inRegion(c *Ctx, root, fn *ssa.Function) bool {
+	for _, f := range c.regionOf(root) {
+		if f == fn {
+			return true
+		}
+	}
+	return false
 }
 
 func getterLikeField(f *ssa.Function) (string, bool) {
